@@ -393,4 +393,13 @@ def equal_salt_script(rng, name):
         ops += ["iinit " + first, "ideliver-from %s 0 %s" % (first, other), "ideliver-from %s 0 %s" % (other, first), "ideliver-from %s 0 %s" % (first, other),
                 "ideliver-from %s 0 %s" % (other, first), "isend %s 0 aa" % a, "ideliver-from %s 0 %s" % (a, b), "isend %s 0 bb" % b, "ideliver-from %s 0 %s" % (b, a),
                 "iexpect both %s %s" % (a, b)]
+    # simultaneous open with equal salts: the whole salted hash breaks the tie, exactly one end gives way and both complete once
+    for k in range(6, 12):
+        salt = rng.bytes(4).hex()
+        a, b = "a%d" % k, "b%d" % k
+        ops += ["iattempt %s A payload=%s salt=%s" % (a, hx(rng.bytes(3)), salt), "iattempt %s B payload=%s salt=%s" % (b, hx(rng.bytes(4)), salt)]
+        ops += ["iinit " + a, "iinit " + b] + (["ideliver-from %s last %s" % (a, b), "ideliver-from %s last %s" % (b, a)] if k % 2 == 0 else
+                                               ["ideliver-from %s last %s" % (b, a), "ideliver-from %s last %s" % (a, b)])
+        ops += ["ideliver-from %s last %s" % (b, a), "ideliver-from %s last %s" % (a, b), "ideliver-from %s last %s" % (b, a), "ideliver-from %s last %s" % (a, b),
+                "isend %s 0 aa" % a, "ideliver-from %s 0 %s" % (a, b), "isend %s 0 bb" % b, "ideliver-from %s 0 %s" % (b, a), "iexpect both %s %s" % (a, b)]
     return Script(name, ops, {"suite": "init", "noshrink": True})
